@@ -3,7 +3,7 @@ from __future__ import annotations
 
 from mc import bootstrap
 from mc.builders import vmdk as B
-from mc.diskcheck import compare_reads, compare_sector_reads, sliced, window_models
+from mc.diskcheck import recheck_after_failure, compare_reads, compare_sector_reads, sliced, window_models
 from mc.models import DATA, HOLE, ZERO, boundaries, request_pairs
 
 PROPERTY = "C02"
@@ -277,3 +277,5 @@ def run_case(case, ctx):
         compare_reads(ctx, case, v, disk, reqs, subject + ".read", full_states, full_slots, unit, srcs)
         compare_sector_reads(ctx, case, v.read_sectors, disk, sreqs, subject + ".read_sectors", 512, full_states,
                              full_slots, unit)
+        if not ctx.violations and g["kind"] not in ("longrun",) and disk.size < (64 << 20):
+            recheck_after_failure(ctx, case, v.read_sectors, v, disk, sreqs, reqs, subject)
